@@ -1,3 +1,8 @@
 import CaoModel.Stack
 import CaoModel.Value
 import CaoModel.Driver.StackEngine
+import CaoModel.Hash
+import CaoModel.OpenAddr
+import CaoModel.HashMap
+import CaoModel.HandleTable
+import CaoModel.Driver.MapEngine
